@@ -785,8 +785,11 @@ fn run_op(w: &mut World, op: &Value) -> Value {
                 let input = if inputs.is_empty() {
                     vec![bitcoin::TxIn { previous_output: bitcoin::OutPoint::null(), script_sig: bitcoin::ScriptBuf::new(), sequence: bitcoin::Sequence(0xffffffff), witness: bitcoin::Witness::new() }]
                 } else {
+                    // optional witness data on every spending input (vsize < total size)
+                    let wb = op["witness_bytes"].as_u64().unwrap_or(0) as usize;
                     inputs.iter().map(|(t, v)| bitcoin::TxIn { previous_output: bitcoin::OutPoint { txid: txs[t].compute_txid(), vout: *v },
-                        script_sig: bitcoin::ScriptBuf::new(), sequence: bitcoin::Sequence(0xffffffff), witness: bitcoin::Witness::new() }).collect()
+                        script_sig: bitcoin::ScriptBuf::new(), sequence: bitcoin::Sequence(0xffffffff),
+                        witness: if wb > 0 { bitcoin::Witness::from_slice(&[vec![7u8; wb]]) } else { bitcoin::Witness::new() } }).collect()
                 };
                 bitcoin::Transaction { version: bitcoin::transaction::Version(1), lock_time: bitcoin::absolute::LockTime::from_consensus(label as u32), input,
                     output: kinds.iter().enumerate().map(|(i, k)| bitcoin::TxOut {
@@ -850,6 +853,10 @@ fn run_op(w: &mut World, op: &Value) -> Value {
                     with_state_mut(state::ingest_stable_blocks_into_utxoset);
                     if id == 1 {
                         with_state_mut(|s| s.unstable_blocks.set_stability_threshold(op["threshold"].as_u64().unwrap_or(1) as u32));
+                    }
+                    if op["upgrade_after"].as_u64() == Some(id) {
+                        ic_btc_canister::pre_upgrade();
+                        ic_btc_canister::post_upgrade(None);
                     }
                     true
                 }));
